@@ -519,6 +519,11 @@ func (e *Enc) contractCall(x *ssa.Call, callee *ssa.Function, ct *Contract, cc *
 		rt := sig.Results().At(i).Type()
 		c := e.havoc(rt, e.pfx+"r_"+mangle(callee.Name()))
 		res = append(res, c)
+		if _, isPtr := types.Unalias(rt).Underlying().(*types.Pointer); isPtr {
+			// a returned pointer is nil, a cell that existed before the call or one the callee allocated: in every case
+			// below the allocation counter after the call, hence distinct from every cell allocated later
+			r.assume(fmt.Sprintf("(and (<= 0 %s) (< %s %s))", c, c, e.getNextRef()))
+		}
 		nm := ""
 		if i < len(ct.Results) {
 			nm = ct.Results[i]
